@@ -48,6 +48,8 @@ def one(m, tier):
     try:
         if "patch" in m:
             r = subprocess.run(["git", "-C", d, "apply", m["patch"]], capture_output=True, text=True)
+            if r.returncode:   # patch made against an older base: fall back to a 3-way merge
+                r = subprocess.run(["git", "-C", d, "apply", "--3way", m["patch"]], capture_output=True, text=True)
             if r.returncode:
                 return m["id"], "PATCH-FAILED", r.stderr[-300:]
         else:
